@@ -9,6 +9,9 @@ TimesHorizon == {-1, 0, 1}
 \* what the binding can pin down (the pass reads the clock itself: "exactly at" cannot be hit)
 TimesBindable == {-1, 1}
 \* volume / inode passes: only the order of the latest times matters
+\* two ranks for up to three segments: ties in the latest time are unavoidable (a victim and a survivor, or two
+\* victims, end on the same millisecond; sort.Slice may order them either way)
+TimesRank2 == {1, 2}
 TimesRank3 == {1, 2, 3}
 TimesRank4 == {1, 2, 3, 4}
 W1 == {1}
